@@ -61,9 +61,54 @@ func regexpSource(f *ast.File, name string) (string, error) {
 	return strconv.Unquote(lit.Value)
 }
 
+// c14CompositeStrings reads `var <name> = T{Field: "lit", ...}` at file level:
+// every field must be a string literal.
+func c14CompositeStrings(f *ast.File, name string) (map[string]string, error) {
+	for _, d := range f.Decls {
+		gd, ok := d.(*ast.GenDecl)
+		if !ok {
+			continue
+		}
+		for _, sp := range gd.Specs {
+			vs, ok := sp.(*ast.ValueSpec)
+			if !ok {
+				continue
+			}
+			for i, n := range vs.Names {
+				if n.Name != name || i >= len(vs.Values) {
+					continue
+				}
+				cl, ok := vs.Values[i].(*ast.CompositeLit)
+				if !ok {
+					return nil, fmt.Errorf("%s is not a composite literal", name)
+				}
+				out := map[string]string{}
+				for _, e := range cl.Elts {
+					kv, ok := e.(*ast.KeyValueExpr)
+					if !ok {
+						return nil, fmt.Errorf("%s: element without field name", name)
+					}
+					k, ok := kv.Key.(*ast.Ident)
+					bl, ok2 := kv.Value.(*ast.BasicLit)
+					if !ok || !ok2 || bl.Kind != token.STRING {
+						return nil, fmt.Errorf("%s: field is not a string literal", name)
+					}
+					v, err := strconv.Unquote(bl.Value)
+					if err != nil {
+						return nil, err
+					}
+					out[k.Name] = v
+				}
+				return out, nil
+			}
+		}
+	}
+	return nil, fmt.Errorf("variable %s not found", name)
+}
+
 func init() {
 	Register(Gen{Name: "Feeds", Run: func(repo string) (string, error) {
-		out := Header("Feeds", "alpine/parser.go", "debian/parser.go", "updater/osv/osv.go", "pkg/ovalutil/rpm.go", "pkg/ovalutil/dpkg.go")
+		out := Header("Feeds", "alpine/parser.go", "debian/parser.go", "updater/osv/osv.go", "pkg/ovalutil/rpm.go", "pkg/ovalutil/dpkg.go", "rhel/repositoryscanner.go", "rhel/vex/updater.go", "rhel/rhcc/rhcc.go")
 		consts := []struct{ file, name, lean string }{
 			{"alpine/parser.go", "cveURLPrefix", "alpineLinkPrefix"},
 			{"debian/parser.go", "linkPrefix", "debianLinkPrefix"},
@@ -75,6 +120,8 @@ func init() {
 			{"pkg/ovalutil/rpm.go", "CVEDefinition", "ovalDefCve"},
 			{"pkg/ovalutil/rpm.go", "UnaffectedDefinition", "ovalDefUnaffected"},
 			{"pkg/ovalutil/rpm.go", "NoneDefinition", "ovalDefNone"},
+			{"rhel/repositoryscanner.go", "repositoryKey", "rhelRepositoryKey"},
+			{"rhel/vex/updater.go", "repoKey", "vexRepoKey"},
 		}
 		for _, c := range consts {
 			_, f, err := ParseFile(repo, c.file)
@@ -164,6 +211,24 @@ func init() {
 				}
 			}
 			out += "]\n\n"
+		}
+		// rhel/rhcc/rhcc.go: var GoldRepo = claircore.Repository{Name: "...", URI: `...`}
+		{
+			_, f, err := ParseFile(repo, "rhel/rhcc/rhcc.go")
+			if err != nil {
+				return "", err
+			}
+			fields, err := c14CompositeStrings(f, "GoldRepo")
+			if err != nil {
+				return "", fmt.Errorf("rhel/rhcc/rhcc.go: %w", err)
+			}
+			for k := range fields {
+				if k != "Name" && k != "URI" && k != "Key" {
+					return "", fmt.Errorf("rhel/rhcc/rhcc.go: GoldRepo sets field %s, which the model does not render", k)
+				}
+			}
+			out += fmt.Sprintf("/-- rhel/rhcc/rhcc.go GoldRepo, rendered Name|Key|URI -/\ndef rhccGoldRepoKey : String := %s\n\n",
+				LeanString(fields["Name"]+"|"+fields["Key"]+"|"+fields["URI"]))
 		}
 		return out + Footer("Feeds"), nil
 	}})
